@@ -177,7 +177,9 @@ def do_op(pool: Pool, e):
             z = calc.set_weapon_zero(shot, U.Yard(DIST[e["arg"]]))
             return ("Zero", float(z.raw_value).hex())
         if a == "ZeroRaises":
-            z = calc.set_weapon_zero(shot, U.Yard(9000))
+            # out of reach (s1, s3) - or, for s2, NEARER than one integration step (10 cm): whatever the finder makes of such a
+            # request, it makes the same of it every time and leaves nothing behind on the calculator
+            z = calc.set_weapon_zero(shot, U.Centimeter(10) if e["s"] == "s2" else U.Yard(9000))
             return ("ZeroRaises:returned", float(z.raw_value).hex())
         if a == "Danger":
             hr = calc.fire(shot, U.Foot(900), U.Foot(30), extra_data=True)
@@ -260,6 +262,8 @@ def replay_sessions(chk, behs):
                 chk.violation("C10.GlobalsChanged", k, det)
             for w in new["zero"]:
                 changed = new["zero"][w] != snap["zero"][w]
+                if e["a"] == "ZeroRaises" and o[1][0].endswith(":returned") and w == pool.weapon_of.get(e["s"]):
+                    continue     # a tree whose finder copes with this request has zeroed the weapon: that is what zeroing does
                 if changed and w not in e["zeroChanged"]:
                     chk.violation("C10.StoredZeroChanged", {**k, "weapon": w}, det)
             if e["zeroChanged"]:
@@ -612,10 +616,23 @@ def run(chk: core.Check, replay=None) -> None:
             raise core.MachineryError("focused session enumeration has no computation / ammunition edit / computation history")
         chk.stratum("edit_between_computations_on_one_calculator")
         replay_sessions(chk, fb)
+    # a second exhaustive alphabet: requests the zero finder cannot serve (out of reach; nearer than one integration step) between
+    # ordinary computations on ONE calculator - whatever a failed or degenerate search leaves on the long-lived solver object
+    # (a step size, an elevation, a curve) must not reach the next computation
+    foc = dict(Shots='{"s2"}', Calcs='{"c1"}', WeaponOf='[s2 |-> "w2"]', AmmoOf='[s2 |-> "a1"]', Distances='{"d1"}', Requests='{"plain", "fine"}',
+               Ops='{"Fire", "Zero", "ZeroRaises"}', DirtRule='"ignored"', MaxEdits=1)
+    cfgf, defsf = core.consts(dict(foc, MaxOps=3))
+    genf = core.run_tlc("Gen_Session", cfgf + "SPECIFICATION GenSpec\nINVARIANT Emit\n", defs=defsf, workers=1, tags=["BEH"])
+    chk.tlc(genf, "Gen_Session focused alphabet: unservable zero requests between computations (exhaustive)")
+    fb = genf.out("BEH")
+    if not any(any(x["a"] == "ZeroRaises" and y["a"] == "Fire" for x, y in zip(b, b[1:])) for b in fb):
+        raise core.MachineryError("focused session enumeration has no 'zero request that raises, then fire' history")
+    chk.stratum("unservable_zero_request_then_computation_on_one_calculator")
+    replay_sessions(chk, fb)
     chk.sample({"history": behs[0]})
     threads_part(chk, thorough, rng)
     chk.require_strata(["op_Fire", "op_FireRaises", "op_Zero", "op_ZeroRaises", "op_Danger", "op_Build", "op_EditTable", "op_FireBadTable",
-                        "default_objects_edited", "earlier_results_rechecked", "table_edited_in_place", "edit_kind_table", "edit_kind_powder", "edit_kind_dims", "edit_between_computations_on_one_calculator", "quantities_redisplayed_and_preferences_switched", "zero_written", "schedule", "schedule_equal_configurations", "schedule_different_configurations",
+                        "default_objects_edited", "earlier_results_rechecked", "table_edited_in_place", "edit_kind_table", "edit_kind_powder", "edit_kind_dims", "edit_between_computations_on_one_calculator", "unservable_zero_request_then_computation_on_one_calculator", "quantities_redisplayed_and_preferences_switched", "zero_written", "schedule", "schedule_equal_configurations", "schedule_different_configurations",
                         "free_running"])
     chk.exhaustive = False
     chk.rule.append("TLC-simulated session histories of 6 operations over 3 shots (shared weapon / shared ammunition, with and without "
